@@ -619,6 +619,23 @@ def _walk(e):
     return walk(e)
 
 
+def left_sccs(g: Grammar) -> dict:
+    """rule -> frozenset of the rules in its strongly connected component of the left-call graph"""
+    lrec, graph, hidden, nul = left_recursive_rules(g)
+    reach = {k: {k} for k in graph}
+    changed = True
+    while changed:
+        changed = False
+        for k in graph:
+            new = set(reach[k])
+            for m in graph[k]:
+                new |= reach.get(m, {m})
+            if new != reach[k]:
+                reach[k] = new
+                changed = True
+    return {k: frozenset(m for m in reach[k] if k in reach.get(m, ())) for k in graph}
+
+
 def left_recursive_rules(g: Grammar):
     """rules that can reach themselves at the same position; plus 'hidden' marker"""
     graph, hidden, nul = left_calls(g)
